@@ -263,6 +263,15 @@ pub enum Op {
     PairNew { needle: BufId, ranker: Ranker },
     PairIdx { needle: BufId, i1: u8, i2: u8 },
 
+    // ----- multi-GiB haystacks (zero pages, a few bytes patched) -------------
+    /// `count` of the byte 0 over `len` zero bytes with the bytes at `holes`
+    /// set to 1: must be exactly `len - holes.len()` (counters narrower than
+    /// usize wrap at 2^32)
+    HugeCount { be: Backend, len: u64, holes: Vec<u64> },
+    /// `find_iter` over `len` zero bytes with `needle` planted at `at`: must
+    /// yield `at` and then None (totals kept in 32 bits overflow past 4 GiB)
+    HugeFindIter { needle: BufId, len: u64, at: u64 },
+
     // ----- composite operations --------------------------------------------
     /// C09: the same byte search on every backend type available in this
     /// build/CPU (top-level, `arch::all`, SSE2, AVX2, NEON); all must agree
